@@ -219,6 +219,22 @@ class LexerModel:
                 return rx
         return None
 
+    def first_match(self, text: str):
+        """(token name, matched length) PLY's master regex yields at the start of `text`: function rules in definition order,
+        then string rules by decreasing regex length; the first alternative that matches wins (not the longest).  Only the
+        folded patterns are evaluated (by `re`), nothing of the lexer runs."""
+        import re
+
+        ordered = [(n, rx) for n, rx, _ in self.func_rules if rx] + sorted(self.rules.items(), key=lambda kv: -len(kv[1]))
+        for n, rx in ordered:
+            try:
+                m = re.compile(rx, re.VERBOSE).match(text)
+            except re.error:
+                continue
+            if m is not None and m.end() > 0:
+                return n, m.end()
+        return None, 0
+
     def spelling(self, name) -> Optional[str]:
         """The single string a fixed-spelling token regex matches, else None."""
         rx = self.token_regex(name)
